@@ -21,6 +21,12 @@ pub trait SyncHooks: Send + Sync {
     fn cv_wait(&self, cv_id: usize, mutex_id: usize);
     /// Called on `Condvar::notify_all` / `notify_one`.
     fn cv_notify(&self, cv_id: usize);
+    /// Called instead of blocking in `Condvar::wait_timeout`, after the mutex has been released. Returns whether the
+    /// wait is to be reported as timed out. The default treats it as a plain scheduling point that times out.
+    fn cv_wait_timeout(&self, cv_id: usize, mutex_id: usize) -> bool {
+        let _ = (cv_id, mutex_id);
+        true
+    }
 }
 
 type CrashCb = dyn Fn(&'static str) + Send + Sync;
@@ -150,6 +156,16 @@ pub mod sync {
         }
     }
 
+    /// Drop-in for `std::sync::WaitTimeoutResult`.
+    #[derive(Debug, Clone, Copy, PartialEq, Eq)]
+    pub struct WaitTimeoutResult(bool);
+
+    impl WaitTimeoutResult {
+        pub fn timed_out(&self) -> bool {
+            self.0
+        }
+    }
+
     /// Drop-in for `std::sync::Condvar`.
     #[derive(Debug, Default)]
     pub struct Condvar {
@@ -185,6 +201,43 @@ pub mod sync {
                         mutex,
                         inner: Some(e.into_inner()),
                     })),
+                }
+            }
+        }
+
+        pub fn wait_timeout<'a, T>(
+            &self,
+            mut guard: MutexGuard<'a, T>,
+            dur: std::time::Duration,
+        ) -> LockResult<(MutexGuard<'a, T>, WaitTimeoutResult)> {
+            let mutex = guard.mutex;
+            if let Some(h) = sync_hooks() {
+                drop(guard);
+                let timed_out = h.cv_wait_timeout(self.id(), mutex.id());
+                match mutex.lock() {
+                    Ok(g) => Ok((g, WaitTimeoutResult(timed_out))),
+                    Err(e) => Err(PoisonError::new((e.into_inner(), WaitTimeoutResult(timed_out)))),
+                }
+            } else {
+                let g = guard.inner.take().unwrap();
+                match self.inner.wait_timeout(g, dur) {
+                    Ok((g, r)) => Ok((
+                        MutexGuard {
+                            mutex,
+                            inner: Some(g),
+                        },
+                        WaitTimeoutResult(r.timed_out()),
+                    )),
+                    Err(e) => {
+                        let (g, r) = e.into_inner();
+                        Err(PoisonError::new((
+                            MutexGuard {
+                                mutex,
+                                inner: Some(g),
+                            },
+                            WaitTimeoutResult(r.timed_out()),
+                        )))
+                    }
                 }
             }
         }
